@@ -91,7 +91,7 @@ class CollationManager(context_class_base):
     """
     lc_collate: Union[None, str, tuple[Optional[str], Optional[str]]]
     fallback: bool = False
-    _current_lc_collate: Optional[tuple[Optional[str], Optional[str]]] = None
+    _current_lc_collate: Union[None, str, tuple[Optional[str], Optional[str]]] = None
 
     def __init__(self,
                  collation: Optional[str],
@@ -146,7 +146,9 @@ class CollationManager(context_class_base):
         if self.lc_collate is not None:
             # Only one locale set can be used at a time
             _locale_collate_lock.acquire()
-            self._current_lc_collate = locale.getlocale(locale.LC_COLLATE)
+            # The exact name of the current locale, that restores it in __exit__
+            # (getlocale() normalizes the name and fails on names that it cannot parse)
+            self._current_lc_collate = locale.setlocale(locale.LC_COLLATE)
 
             try:
                 locale.setlocale(locale.LC_COLLATE, self.lc_collate)
@@ -175,9 +177,11 @@ class CollationManager(context_class_base):
                  exc_val: Optional[BaseException],
                  exc_tb: Optional[TracebackType]) -> None:
         if self._current_lc_collate is not None:
-            locale.setlocale(locale.LC_COLLATE, self._current_lc_collate)
-            self._current_lc_collate = None
-            _locale_collate_lock.release()
+            try:
+                locale.setlocale(locale.LC_COLLATE, self._current_lc_collate)
+            finally:
+                self._current_lc_collate = None
+                _locale_collate_lock.release()
 
     def eq(self, a: Any, b: Any) -> bool:
         if not isinstance(a, str) or not isinstance(b, str):
